@@ -312,5 +312,6 @@ def run(ck, ctx):
     ck.floor("C14.4", "sinks of strict-dependent values", n_sinks, 8)
     ck.include("C09", ctx, "C14.5", {"C09.3"}, "with and without strict the access context must be the machine's own (privilege never derived from the strict flag)")
     ck.include("C15", ctx, "C14.3", None, "initialised operands give initialised results")
+    ck.include("C16", ctx, "C14.6", {"C16.1"}, "a step that strict mode rejects must fail with a strict error, not panic: the strict-only code (in_alloca, the init checks) is panic-free")
     ck.assume("Word operators map fully initialised operands to fully initialised results (C15)")
     ck.assume("the access observer, devices and frame stack are not consulted by strict-only code (follows from the pure-region rule)")
